@@ -221,14 +221,30 @@ def gen_boards():
     write_if_changed(os.path.join(GEN, "Boards.v"), t)
 
 
+LAST_ERRORS = {}
+
+
 def regenerate(only=None):
-    """returns None on success, else an error string; `only` = names of the plugins to run (None: all)"""
+    """returns None on success, else an error string; `only` = names of the plugins to run (None: all).
+    LAST_ERRORS = {plugin name ("boards" for the board tables): message} of the plugins that failed: a property is
+    affected only by the plugins whose output it uses (tools/props.py)"""
+    LAST_ERRORS.clear()
     try:
         gen_boards()
-        for f in extra_generators(only):
-            f()
     except Exception as e:  # any failure of the translator is a broken tie, reported by the caller
-        return "%s: %s" % (type(e).__name__, e)
+        LAST_ERRORS["boards"] = "%s: %s" % (type(e).__name__, e)
+    try:
+        plugins = extra_generators(only)
+    except Exception as e:
+        LAST_ERRORS["plugins"] = "%s: %s" % (type(e).__name__, e)
+        plugins = []
+    for name, f in plugins:
+        try:
+            f()
+        except Exception as e:
+            LAST_ERRORS[name] = "%s: %s" % (type(e).__name__, e)
+    if LAST_ERRORS:
+        return "; ".join("%s: %s" % kv for kv in sorted(LAST_ERRORS.items()))
     return None
 
 
@@ -242,7 +258,7 @@ def extra_generators(only=None):
             spec = importlib.util.spec_from_file_location(f[:-3], os.path.join(d, f))
             m = importlib.util.module_from_spec(spec)
             spec.loader.exec_module(m)
-            out.append(m.generate)
+            out.append((f[5:-3], m.generate))
     return out
 
 
